@@ -98,6 +98,19 @@ func runNLVCase(cs nlvCase) (res map[string]interface{}, violated string) {
 				if violated == "" {
 					violated = checkSet(before, n, op[1], op[2])
 				}
+			case "setget":
+				// the text of one tag stored under another as well: Set(op[1], Get(op[2])) — the same bytes held twice
+				v := n.Get(ap.LangRef(op[2]))
+				if v == nil {
+					outs = append(outs, "skip")
+					break
+				}
+				want := string(v)
+				_ = n.Set(ap.LangRef(op[1]), v)
+				outs = append(outs, "ok")
+				if violated == "" {
+					violated = checkSet(before, n, op[1], want)
+				}
 			case "append":
 				_ = n.Append(ap.LangRef(op[1]), ap.Content(op[2]))
 				outs = append(outs, "ok")
@@ -300,6 +313,30 @@ func init() {
 				h = append(h, op)
 			}
 			c19History(c, nlvCase{Init: init, Ops: h})
+		}
+		// texts held twice (Set(t2, Get(t1))) and then replaced by longer and shorter ones: judged by the oracle only
+		// (the model's operations carry their texts; which text a "setget" stores is known at run time)
+		for i := 0; i < c.N(1500, 30000); i++ {
+			var h [][]string
+			texts := []string{"hello", "hi", "salut tout le monde", "x", ""}
+			for k := 2 + c.R.Intn(10); k > 0; k-- {
+				switch c.R.Intn(4) {
+				case 0:
+					h = append(h, []string{"setget", c.R.Pick(c19Tags), c.R.Pick(c19Tags)})
+				case 1:
+					h = append(h, []string{"get", c.R.Pick(c19Tags)})
+				default:
+					h = append(h, []string{"set", c.R.Pick(c19Tags), c.R.Pick(texts)})
+				}
+			}
+			cs := nlvCase{Init: [][2]string{}, Ops: h}
+			_, viol := runNLVCase(cs)
+			in := map[string]interface{}{"op": "nlv", "init": cs.Init, "ops": cs.Ops}
+			c.Count(in, true)
+			c.Tag("op/setget-histories")
+			if viol != "" {
+				c.Fail("C19/history", viol, in)
+			}
 		}
 		// equality: all pairs of lists without repeated tags, <= 3 entries
 		var lists [][][2]string
